@@ -42,7 +42,16 @@ def main():
     assert rc == 0, out
     os.makedirs(TGT, exist_ok=True)
     os.symlink(TGT, os.path.join(WT, "target"))
-    env = dict(os.environ, CARGO_NET_OFFLINE="true", CARGO_TARGET_DIR=TGT)
+    env = dict(os.environ, CARGO_NET_OFFLINE="true", CARGO_TARGET_DIR=TGT, FERROUS_BIN=os.path.join(TGT, "debug", "ferrous"))
+    # demos written against the seeding agent's own worktree path (/tmp/mut-<id>) find the scratch worktree there
+    alias = None
+    m = __import__("re").search(r"/tmp/mut-[A-Za-z0-9]+", src)
+    if m:
+        alias = m.group(0).split("-out")[0]
+        if not os.path.exists(alias):
+            os.symlink(WT, alias)
+        else:
+            alias = None
     head = sh("git -C /repo rev-parse --short HEAD")[1].strip()
     meta["repo_head"] = head
     try:
@@ -108,6 +117,8 @@ def main():
             meta["checks"] = oc
         json.dump(meta, open(mp, "w"), indent=1)
     finally:
+        if alias and os.path.islink(alias):
+            os.unlink(alias)
         sh("git -C /repo worktree remove --force %s" % WT)
     return 0
 
